@@ -705,6 +705,9 @@ func init() {
 					hist = append(hist, append(append([]string{}, s...), "re"), append(append([]string{}, s...), "re", "put:c"))
 				}
 			}
+			// a transaction whose failed Commit is retried (the record object is reused), then more
+			// writes, then a reopen
+			hist = append(hist, []string{"trxr:+a,+b", "put:c", "re"}, []string{"Sput:a", "trxr:+b,-a", "Sput:c", "q", "re"}, []string{"trxr:+a,+b", "trxr:+b,+c", "re", "put:a"})
 			// journals of several 32 KiB blocks: records that span blocks and journal reads
 			hist = append(hist, []string{"SputX:a", "re"}, []string{"Sput:b", "SputX:a", "Sput:c", "re"}, []string{"SputX:a", "SputX:b", "re", "Sput:c"})
 			rd, rmax := 5, 6
